@@ -5,8 +5,12 @@
 package verif
 
 import (
+	"bytes"
 	"fmt"
 	"math"
+	"os"
+	"os/exec"
+	"path/filepath"
 	"reflect"
 	"sort"
 	"strconv"
@@ -249,3 +253,46 @@ func SetTier(t int) { tier = t }
 // GlobalWrites is the number of stores to package-level state of the library
 // observed so far (always 0 natively; tracked by the engine).
 func GlobalWrites() int { return 0 }
+
+// RunCmd runs the bcl command-line tool with the given arguments, standard
+// input and files (names relative to its working directory) and returns its
+// exit status, standard output, standard error and the files present
+// afterwards. Under the engine cmd/bcl's main is executed symbolically over
+// an in-memory model of package os; natively the real binary (path in
+// $VERIF_BCL_BIN) is run in a temporary directory.
+func RunCmd(args []string, stdin string, names, contents []string) (status int, stdout, stderr string, outNames, outContents []string) {
+	bin := os.Getenv("VERIF_BCL_BIN")
+	if bin == "" {
+		panic("verif.RunCmd: VERIF_BCL_BIN not set")
+	}
+	dir, err := os.MkdirTemp("", "bclcmd")
+	if err != nil {
+		panic(err)
+	}
+	defer os.RemoveAll(dir)
+	for i, n := range names {
+		if err := os.WriteFile(filepath.Join(dir, n), []byte(contents[i]), 0o644); err != nil {
+			panic(err)
+		}
+	}
+	cmd := exec.Command(bin, args...)
+	cmd.Dir = dir
+	cmd.Stdin = strings.NewReader(stdin)
+	var so, se bytes.Buffer
+	cmd.Stdout, cmd.Stderr = &so, &se
+	err = cmd.Run()
+	if err != nil {
+		if ee, ok := err.(*exec.ExitError); ok {
+			status = ee.ExitCode()
+		} else {
+			panic(err)
+		}
+	}
+	ents, _ := os.ReadDir(dir)
+	for _, e := range ents {
+		b, _ := os.ReadFile(filepath.Join(dir, e.Name()))
+		outNames = append(outNames, e.Name())
+		outContents = append(outContents, string(b))
+	}
+	return status, so.String(), se.String(), outNames, outContents
+}
